@@ -337,9 +337,12 @@ class Gridder(GeospatialGrid):
         if lon_end == lon_start:
             # both points lie on the antimeridian itself (-pi and +pi)
             return lat_start
-        return lat_start + (lon_cross - lon_start) / (lon_end - lon_start) * (
+        lat_cross = lat_start + (lon_cross - lon_start) / (lon_end - lon_start) * (
             lat_end - lat_start
         )
+        # the interpolation can overshoot an end latitude by one rounding error; when
+        # that end point is a pole the result would not be a latitude any more
+        return min(max(lat_cross, min(lat_start, lat_end)), max(lat_start, lat_end))
 
     def _calculate_segment_lengths(
         self, lats, lons, dateline_crossing_idx, dateline_crossing_sign
